@@ -331,6 +331,9 @@ def validate_monitor(module, cfg, dirs, records, procs=12, timeout=900, sets=("b
             for s in sets:
                 if s in marks:
                     res[s] += [off + x - 1 for x in ints_of(marks[s][-1])]
+            for k_, v_ in marks.items():
+                if k_ not in sets and k_ != "lines":
+                    stats.setdefault("marks", {}).setdefault(k_, []).extend(v_)
             stats["generated"] += r.generated
             stats["distinct"] += r.distinct
             stats["lines"] += n
